@@ -276,6 +276,28 @@ func init() {
 		s := scenarios["restart"]()
 		s.FSStore = true
 		s.Faults = Faults{Crash: true, Cut: true}
+		// the records of the second generation are shorter than those of the
+		// first: what a Save interrupted by the stop left behind under the
+		// same key must not show through
+		s.Gens[0][1].Ops = []Op{
+			{Kind: "pub2", Topic: "t/4", Msg: []byte("m4")},
+			{Kind: "pub1", Topic: "t/5", Msg: []byte("m5")},
+		}
+		return s
+	})
+	// the same three generations judged by what the application was promised
+	// (C01: every accepted message reaches the broker and its exchange closes;
+	// C05: in submission order): records of two generations are pending side
+	// by side at the second stop
+	register("restartdeliver", func() *Scenario {
+		s := scenarios["restart"]()
+		s.Faults = Faults{Crash: true}
+		s.Final = func(w *World) {
+			w.monitorWire()
+			w.monitorAllDelivered("C01")
+			w.monitorExchangeOrder("C05")
+			w.monitorOrder()
+		}
 		return s
 	})
 	register("restart", func() *Scenario {
